@@ -34,14 +34,28 @@ def main(argv):
     try:
         common.build_shim()
         if what == "setup":
-            t = common.build_sim(("simtools",))
+            t = common.build_sim(("simtools", "miri_threads"))
             log("built sim workspace in %.1fs" % t)
             t = common.build_cli()
             log("built peginator-cli in %.1fs" % t)
+            import c16
+            import mirisched
+            m = c16.macro_route_check(seed, "quick")
+            log("macro_route: %s" % m.get("status"))
+            p = mirisched.run_miri("-Zmiri-seed=1 -Zmiri-disable-isolation", [1, 2], 3600)
+            log("miri warm-up: rc=%d" % p.returncode)
+            if p.returncode != 0:
+                log(p.stderr.decode(errors="replace")[-2000:])
+                return 2
             return 0
         if what in ("C05", "C20"):
             common.build_sim(("simtools",))
             import parsesim
+            if replay and what == "C20":
+                import json
+                if str(json.load(open(replay)).get("kind", "")).startswith("miri:"):
+                    import mirisched
+                    return mirisched.run(tier, seed, replay)
             rc = parsesim.run_check(what, tier, seed, replay)
             if what == "C20" and rc == 0 and not replay:
                 import mirisched
